@@ -153,10 +153,27 @@ impl<'a> Gen<'a> {
                 }
                 6 => self.tag("set q = 1", "set"),
                 7 => {
-                    let (l, r) = self.marks();
+                    let (mut l, mut r) = self.marks();
                     let mut body = format!(" {} ", gen_text(self.rng, self.ds));
                     if self.ds.iter().any(|d| body.contains(d.ce.as_str())) {
                         body = " c ".to_string();
+                    }
+                    // degenerate bodies: empty, and text touching the delimiters (never a dash at either end: that
+                    // would be a marker). With an empty body a single marker is spelled `{#-#}` whichever side it is
+                    // meant for: it is generated as a left marker and either reading is accepted (see `lone_dash`)
+                    if self.rng.chance(1, 4) {
+                        body = self.rng.pick(&["", "", "x", " x", "x ", "a-b", "#", "- -".trim_matches('-')]).to_string();
+                        if body.is_empty() && r && !l {
+                            (l, r) = (true, false);
+                        }
+                        // the end delimiter must not be completed early by the body's last characters
+                        let early = self.ds.iter().any(|d| {
+                            let tail = format!("{body}{}{}", if r { "-" } else { "" }, d.ce);
+                            tail.find(d.ce.as_str()) != Some(tail.len() - d.ce.len())
+                        });
+                        if early {
+                            body = " c ".to_string();
+                        }
                     }
                     self.items.push(It::Comment { body, l, r });
                 }
@@ -268,6 +285,24 @@ fn rmark(it: &It) -> bool {
         It::Raw { or, .. } => *or,
         It::Text { .. } => false,
     }
+}
+
+/// the item lists obtained by reading every lone dash of an empty comment (`{#-#}`) as a right marker instead of a left one
+/// (None when there is no such comment). With several such comments all are flipped together: the engine reads them all
+/// the same way.
+fn lone_dash(items: &[It]) -> Option<Vec<It>> {
+    let mut any = false;
+    let flipped: Vec<It> = items
+        .iter()
+        .map(|it| match it {
+            It::Comment { body, l: true, r: false } if body.is_empty() => {
+                any = true;
+                It::Comment { body: String::new(), l: false, r: true }
+            }
+            other => other.clone(),
+        })
+        .collect();
+    any.then_some(flipped)
 }
 
 fn spell(items: &[It], d: &D) -> String {
@@ -512,7 +547,10 @@ pub fn run(cx: &mut Cx) {
             cx.eval();
             match engine(d, &src) {
                 Ok(Ok(out)) => {
-                    if out != exp {
+                    // `{#-#}`: one dash, two delimiters it is "inside" of. It removes whitespace on one side — whichever the
+                    // engine reads it as — never on both, never on none
+                    let alt = lone_dash(&items).map(|flipped| expected(&flipped));
+                    if out != exp && alt.as_deref() != Some(out.as_str()) {
                         // classify: does a `-` reach across a comment?
                         let reals: Vec<&It> = items.iter().filter(|i| !is_pseudo(i)).collect();
                         let across_comment = reals.windows(2).any(|w| matches!(w[1], It::Comment { r: false, .. }) && rmark(w[0]));
